@@ -218,7 +218,7 @@ theorem fields_reset :
     Clone: nothing taken from the recycled recorder, response state read through the current writer `c.w`, buffers
     filled by make + copy -/
 theorem ctx_tie :
-    Generated.ctxFields = ["w", "req", "params", "tsrParams", "skipNds", "route", "tree", "fox", "cachedQuery", "rec", "scope", "tsr"] ∧
+    Generated.ctxFields = ["cachedQuery", "fox", "params", "rec", "req", "route", "scope", "skipNds", "tree", "tsr", "tsrParams", "w"] ∧
     Generated.assigned_reset = ["cachedQuery", "params", "rec", "req", "scope", "w"] ∧
     Generated.assigned_resetNil = ["cachedQuery", "params", "req", "route", "w"] ∧
     Generated.assigned_resetWithWriter = ["cachedQuery", "params", "req", "route", "scope", "tsr", "w"] ∧
